@@ -12,7 +12,7 @@ import (
 func init() { register("C10", C10) }
 
 func c10Corpus(c *Ctx) []*corpus.Spec {
-	want := []string{"expr_std", "opt_mid", "auto_tokens", "expr_precedence"}
+	want := []string{"expr_std", "opt_mid", "auto_tokens", "expr_precedence", "prec_mixed", "redecl"}
 	if c.Thorough() {
 		want = append(want, "etf", "lvalue", "expr_nonassoc", "nested_null", "len4", "unit_chain", "dangling_else")
 	}
